@@ -45,14 +45,24 @@ def sh(cmd, cwd=None, env=None, timeout=None, check=True):
 # build
 # ---------------------------------------------------------------------------------------------
 
+CORPUS_STATE = {"ok": True, "errors": ""}
+
+
 def build_harness():
-    """(Re)build the harness against /repo's current working tree (incremental)."""
+    """(Re)build the harness against /repo's current working tree (incremental). If the build only
+    fails because a VALID attribute list of the C19 corpus no longer compiles, fall back to a build
+    without the corpus (every other check still runs; C19 reports the corpus failure)."""
     os.makedirs(WORK, exist_ok=True)
     env = {"CARGO_NET_OFFLINE": "true"}
     t0 = time.time()
     p = sh(["cargo", "build", "--offline"], cwd=HARNESS, env=env, timeout=1500, check=False)
     if p.returncode != 0:
-        raise ToolError("harness build failed:\n" + p.stdout[-6000:])
+        p2 = sh(["cargo", "build", "--offline", "--no-default-features", "--features", "stats"], cwd=HARNESS,
+                env=env, timeout=1500, check=False)
+        if p2.returncode != 0:
+            raise ToolError("harness build failed:\n" + p.stdout[-6000:])
+        CORPUS_STATE["ok"] = False
+        CORPUS_STATE["errors"] = p.stdout
     return time.time() - t0
 
 
